@@ -634,6 +634,7 @@ def main(argv=None):
         for ln in lines:
             print(ln)
         return 1 if lines else 2
+    lines = list(dict.fromkeys(lines))
     for ln in lines:
         print(ln)
     if lines:
